@@ -415,7 +415,9 @@ def generate(rng, focus, tier="quick"):
                     ops[-1]["ahead"] = rng.choice([1, 60, 3600, 6 * 3600, DAY, 2 * DAY])
             sh["held"].add((pid, a))
         elif r < 0.952:
-            emit({"k": "setfee", "fee": rng.choice([{"kind": "zero"}, {"kind": "pct", "c": rng.choice([1e-3, 0.01]), "t": rng.choice([0.0, 5e-3])}])})
+            emit({"k": "setfee", "fee": rng.choice([{"kind": "zero"}, {"kind": "pct", "c": rng.choice([1e-3, 0.01]), "t": rng.choice([0.0, 5e-3])},
+                                                    {"kind": "pct", "c": rng.choice([2e-3, 0.02]), "t": rng.choice([0.0, 1e-3])}]),
+                  "in_place": rng.random() < 0.6})
         elif r < 0.96 and rng.random() < 0.5:
             # a what-if clone of a live Position (copy / deepcopy / pickle), traded and re-marked on its own
             emit({"k": "whatif", "pid": rng.choice(sh["pids"]), "asset": rng.choice(assets), "qty": _qty(rng),
@@ -1034,6 +1036,14 @@ class Exec(object):
         fee = op["fee"]
         from qstrader.broker.fee_model.zero_fee_model import ZeroFeeModel
         from qstrader.broker.fee_model.percent_fee_model import PercentFeeModel
+        if fee["kind"] == "pct" and op.get("in_place") and type(s.broker.fee_model) is PercentFeeModel:
+            # the rates of the model in use are re-negotiated: its public attributes are assigned, the object stays
+            s.broker.fee_model.commission_pct = fee["c"]
+            s.broker.fee_model.tax_pct = fee["t"]
+            s.rate = frac(fee["c"]) + frac(fee["t"])
+            self.ctx.event("setfee", "in_place")
+            self.ctx.probe("fee_rates_changed_in_place")
+            return False
         if fee["kind"] == "zero":
             new, rate = ZeroFeeModel(), Fraction(0)
         else:
@@ -1608,6 +1618,9 @@ class Exec(object):
             bal = b.get_account_cash_balance(s.ccy)
             allb = dict(b.get_account_cash_balance())
         except Exception as e:
+            from qsim.core import raised_in_repo as _rir
+            if not _rir(e):
+                raise          # a bug of the harness: exit 2, never a verdict
             ctx.violate("C01", "cash_getter_raised", {"exc": repr(e)[:200]})
             return
         if not ctx.check("C01", close(bal, m.master, scale=m.master_flow), "master_cash_mismatch",
@@ -1630,6 +1643,9 @@ class Exec(object):
             try:
                 c = b.get_portfolio_cash_balance(pid)
             except Exception as e:
+                from qsim.core import raised_in_repo as _rir
+                if not _rir(e):
+                    raise          # a bug of the harness: exit 2, never a verdict
                 ctx.violate("C01", "cash_getter_raised", {"exc": repr(e)[:200]})
                 return
             if not ctx.check("C01", close(c, p.cash, scale=p.flow), "portfolio_cash_mismatch",
@@ -1651,6 +1667,9 @@ class Exec(object):
             try:
                 tot = getattr(b, getter)()
             except Exception as e:
+                from qsim.core import raised_in_repo as _rir
+                if not _rir(e):
+                    raise          # a bug of the harness: exit 2, never a verdict
                 ctx.violate("C01", "account_%s_not_obtainable" % name,
                             {"exc": repr(e)[:300], "portfolios": list(m.order)},
                             sig="account_%s_not_obtainable:%s" % (name, type(e).__name__))
@@ -1712,6 +1731,9 @@ class Exec(object):
             try:
                 df = s.broker.portfolios[pid].history_to_df()
             except Exception as e:
+                from qsim.core import raised_in_repo as _rir
+                if not _rir(e):
+                    raise          # a bug of the harness: exit 2, never a verdict
                 ctx.violate("C01", "history_to_df_raised", {"exc": repr(e)[:200]})
                 return
             if not ctx.check("C01", len(df) == len(p.rows), "history_df_row_count",
@@ -1744,6 +1766,9 @@ class Exec(object):
                 teq = b.get_portfolio_total_equity(pid)
                 cash = b.get_portfolio_cash_balance(pid)
             except Exception as e:
+                from qsim.core import raised_in_repo as _rir
+                if not _rir(e):
+                    raise          # a bug of the harness: exit 2, never a verdict
                 ctx.violate("C02", "holdings_getter_raised", {"exc": repr(e)[:200]})
                 return
             if not ctx.check("C02", set(d.keys()) == set(p.pos.keys()), "holdings_report_asset_set",
@@ -1783,6 +1808,9 @@ class Exec(object):
             try:
                 d = b.get_portfolio_as_dict(pid)
             except Exception as e:
+                from qsim.core import raised_in_repo as _rir
+                if not _rir(e):
+                    raise          # a bug of the harness: exit 2, never a verdict
                 ctx.violate("C03", "holdings_getter_raised", {"exc": repr(e)[:200]})
                 return
             sums = {"realised_pnl": 0.0, "unrealised_pnl": 0.0, "total_pnl": 0.0}
@@ -1856,6 +1884,9 @@ class Exec(object):
                        "unrealised_pnl": float(pf.total_unrealised_pnl),
                        "total_pnl": float(pf.total_pnl)}
             except Exception as e:
+                from qsim.core import raised_in_repo as _rir
+                if not _rir(e):
+                    raise          # a bug of the harness: exit 2, never a verdict
                 ctx.violate("C03", "portfolio_pnl_totals_raised", {"exc": repr(e)[:200]})
                 return
             for k2 in sums:
